@@ -13,11 +13,15 @@ import (
 	"runtime"
 	"sync"
 	"sync/atomic"
+	"time"
 	"unsafe"
 )
 
 const (
 	MaxTasks    = 256
+	libBase     = 17 // task numbers of goroutines started by the library begin here (clients: 1..16)
+	maxSurvive  = 32 // more library goroutines than this alive at the end of a run are ended, not kept
+	postFireMax = 8  // timer firings allowed once every client task has finished
 	MaxSwitches = 1 << 16
 	MaxObjs     = 4
 )
@@ -96,6 +100,12 @@ type task struct {
 	opSteps   uint64
 	napUntil  uint64
 	gen       uint64
+	// persist: a goroutine the library started that is still alive (waiting or
+	// runnable) when its run ends normally. It is not ended: it sleeps (parked)
+	// until a later run of the process schedules it, as the real goroutine would
+	// simply still be there for later calls.
+	persist bool
+	parked  bool
 }
 
 // Stats is what one simulated run measured.
@@ -122,6 +132,7 @@ type Stats struct {
 	Selects         uint64
 	TimersFired     uint64
 	TimersMade      uint64
+	Survivors       uint64
 	ForcedGCs       uint64
 	HotNaps         uint64
 	Fingerprint     uint64
@@ -138,19 +149,23 @@ var (
 	allDone  bool
 	cur      int32
 	ntasks   int32
-	tasks    [MaxTasks]task
-	stepN    uint64
-	sched    Sched
-	faults   Faults
-	rng      rngState
-	frng     rngState
-	stats    Stats
-	switches []Switch
-	pairs    []uint64
-	changeAt [8]uint64
-	nchange  int
-	lowPrio  int32
-	runGen   uint64
+	nclients int32
+	// nsurvivors: library goroutines of earlier runs taking part in this one
+	nsurvivors int32
+	postFires  int32
+	tasks      [MaxTasks]task
+	stepN      uint64
+	sched      Sched
+	faults     Faults
+	rng        rngState
+	frng       rngState
+	stats      Stats
+	switches   []Switch
+	pairs      []uint64
+	changeAt   [8]uint64
+	nchange    int
+	lowPrio    int32
+	runGen     uint64
 
 	clientsLeft int32
 	graceSteps  uint64
@@ -241,7 +256,12 @@ func Y(site uint32) {
 		graceSteps++
 		if graceSteps > 200_000 {
 			stats.LeakedTasks++
+			markSurvivors()
 			allDone = true
+			if t.persist {
+				waitTurn(cur) // parked; goes on from here in a later run
+				return
+			}
 			panic(abortSentinel{})
 		}
 		return
@@ -343,16 +363,66 @@ func record(t *task, site uint32, to int32, kind uint8) {
 
 //go:norace
 func waitTurn(me int32) {
-	gen := tasks[me].gen
-	for cur != me || runGen != gen {
-		if aborted || allDone || runGen != gen {
+	t := &tasks[me]
+	for {
+		if t.persist {
+			// the run this task belonged to is over and it was kept: sleep until
+			// a later run takes it over (reset clears persist)
+			if !t.parked {
+				t.parked = true
+				joinWG.Done()
+			}
+			time.Sleep(100 * time.Microsecond)
+			continue
+		}
+		if aborted || allDone || runGen != t.gen {
 			panic(abortSentinel{})
+		}
+		if cur == me {
+			return
 		}
 		runtime.Gosched()
 	}
-	if aborted || allDone {
-		panic(abortSentinel{})
+}
+
+// markSurvivors is called when a run ends normally: the library goroutines that
+// are still alive are kept for the following runs of the process, unless there
+// are implausibly many (goroutines leaked by every call), which are ended as
+// before.
+//
+//go:norace
+func markSurvivors() {
+	n := 0
+	for i := int32(libBase); i < ntasks; i++ {
+		if !tasks[i].client && (tasks[i].state == stRunnable || tasks[i].state == stBlocked) {
+			n++
+		}
 	}
+	if n == 0 || n > maxSurvive {
+		return
+	}
+	for i := int32(libBase); i < ntasks; i++ {
+		if !tasks[i].client && (tasks[i].state == stRunnable || tasks[i].state == stBlocked) {
+			tasks[i].persist = true
+			stats.Survivors++
+		}
+	}
+}
+
+// morePostFires bounds the timer firings after the last client task finished (a
+// ticker-driven janitor would otherwise keep every run going until the ticker
+// bound).
+//
+//go:norace
+func morePostFires() bool {
+	if clientsLeft > 0 {
+		return true
+	}
+	if postFires >= postFireMax {
+		return false
+	}
+	postFires++
+	return true
 }
 
 //go:norace
@@ -631,7 +701,7 @@ func Block(addr unsafe.Pointer) {
 	} else {
 		to = pick(cur)
 	}
-	for to < 0 && fireEarliestTimer() {
+	for to < 0 && morePostFires() && fireEarliestTimer() {
 		// the clock jumped to the next timer; somebody (possibly this task) may
 		// be runnable again
 		if t.state == stRunnable {
@@ -646,7 +716,12 @@ func Block(addr unsafe.Pointer) {
 		// only library-spawned goroutines are left and none can run: they are
 		// leaked, which C19 does not speak about. End the run normally.
 		stats.LeakedTasks++
+		markSurvivors()
 		allDone = true
+		if t.persist {
+			waitTurn(cur) // parked while blocked; resumes when a later run wakes and schedules it
+			return
+		}
 		panic(abortSentinel{})
 	}
 	record(t, t.lastSite, to, 2)
@@ -758,7 +833,7 @@ func finish(me int32) {
 	} else {
 		to = pick(me)
 	}
-	for to < 0 && fireEarliestTimer() {
+	for to < 0 && morePostFires() && fireEarliestTimer() {
 		to = pick(me)
 	}
 	if to < 0 {
@@ -779,6 +854,7 @@ func finish(me int32) {
 			stats.AbortDetail = stallWhy() + deadlockDetail()
 			return
 		}
+		markSurvivors()
 		allDone = true
 		return
 	}
@@ -847,21 +923,32 @@ func Go(f func()) {
 //go:norace
 func spawn(client bool) int32 {
 	id := int32(-1)
-	if !client {
+	if client {
+		if nclients+1 >= libBase {
+			return -1
+		}
+		nclients++
+		id = nclients
+	} else {
 		// reuse the slot of a finished library-spawned task
-		for i := int32(1); i < ntasks; i++ {
-			if tasks[i].state == stDone && !tasks[i].client {
+		for i := int32(libBase); i < ntasks; i++ {
+			if tasks[i].state == stDone || tasks[i].state == stUnused {
 				id = i
 				break
 			}
 		}
-	}
-	if id < 0 {
-		if ntasks >= MaxTasks {
-			return -1
+		if id < 0 {
+			id = ntasks
+			if id < libBase {
+				id = libBase
+			}
+			if id >= MaxTasks {
+				return -1
+			}
 		}
-		id = ntasks
-		ntasks++
+	}
+	if id >= ntasks {
+		ntasks = id + 1
 	}
 	old := &tasks[id]
 	tasks[id] = task{state: stRunnable, client: client, prio: int32(rng.next() % 1000), gen: runGen,
@@ -880,15 +967,27 @@ func reset(s Sched, f Faults) {
 	allDone = false
 	escaped = nil
 	cur = 0
-	ntasks = 1 // id 0 is the main (non-client) context
-	for i := range tasks {
-		tasks[i] = task{}
-	}
 	stepN = 0
 	sched = s
 	faults = f
 	rng.seed(s.Seed)
 	frng.seed(f.Seed ^ 0x9e3779b97f4a7c15)
+	ntasks = 1 // id 0 is the main (non-client) context
+	nclients = 0
+	nsurvivors = 0
+	postFires = 0
+	for i := range tasks {
+		t := &tasks[i]
+		if i >= libBase && t.persist && t.parked && !t.client && (t.state == stRunnable || t.state == stBlocked) {
+			// a library goroutine that outlived an earlier run: it takes part in
+			// this one (same task number, same wait)
+			*t = task{state: t.state, blockedOn: t.blockedOn, lastSite: t.lastSite, prio: int32(rng.next() % 1000), gen: runGen}
+			nsurvivors++
+			ntasks = int32(i) + 1
+			continue
+		}
+		*t = task{}
+	}
 	stats = Stats{}
 	if switches == nil {
 		switches = make([]Switch, 0, MaxSwitches)
@@ -898,7 +997,9 @@ func reset(s Sched, f Faults) {
 	pairs = pairs[:0]
 	nchange = 0
 	lowPrio = 0
-	simNow = f.ClockBase
+	if nsurvivors == 0 || simNow < f.ClockBase {
+		simNow = f.ClockBase
+	}
 	if sched.Policy == PolPCT {
 		est := sched.EstSteps
 		if est == 0 {
@@ -925,11 +1026,14 @@ func reset(s Sched, f Faults) {
 		}
 	}
 	resetPools()
-	resetChans()
-	resetTimers()
+	if nsurvivors == 0 {
+		// with survivors the channels, timers and contexts they wait on live on
+		resetChans()
+		resetTimers()
+		resetCtx()
+	}
 	resetTicks()
 	rrCursor, leaseTask, leaseLeft = 0, 0, 0
-	resetCtx()
 }
 
 //go:norace
@@ -957,6 +1061,7 @@ func distributeExplicit() {
 // the run was aborted. The caller (main goroutine) never takes the turn.
 func RunTasks(s Sched, f Faults, bodies []func()) (Stats, []Switch) {
 	reset(s, f)
+	joinWG.Add(int(nsurvivors)) // each parks again (or ends) before this run is over
 	distributeExplicit()
 	for range bodies {
 		spawn(true)
